@@ -355,6 +355,16 @@ def dict_method(eng, bm, obj, name, args, kwargs, node):
         return None
     if name == "copy":
         return dict(obj)
+    if name == "pop" and args and not is_sym(args[0]) and all(not is_sym(k) for k in obj):
+        # d.pop(key[, default]) on a dict with concrete keys
+        new = dict(obj)
+        if args[0] in new:
+            v = new.pop(args[0])
+            _wb(eng, bm, new)
+            return v
+        if len(args) > 1:
+            return args[1]
+        raise_(eng, "KeyError", node)
     raise Unsupported(f"dict.{name}")
 
 
